@@ -3,6 +3,7 @@ import Oas3Model.Driver.Resp
 import Oas3Model.Driver.Client
 import Oas3Model.Model.Server
 import Oas3Model.Model.ServerParams
+import Oas3Model.Sem.Router
 open Lean Oas3.Driver Oas3.Path Oas3.Client Oas3.Server Oas3.Resp Oas3.Status
 
 namespace Oas3.Driver.Server
@@ -186,6 +187,57 @@ def run : Handler := fun req => do
     let pats := (routesI.map fun r => (r.splitOn " ").head!).eraseDups
     if pats.any fun a => pats.any fun b => a != b && shape a.toList == shape b.toList then
       return verdict false (if conflict then ["KnownConflictingPatterns"] else []) "two route patterns differ only in parameter names: axum/matchit rejects the router at start-up"
+    -- BEHAVIOUR of the emitted router (stated axum semantics, Sem/Router.lean, tied to the real axum by `route.dispatch`)
+    -- against what the document declares: every declared (method, path) reaches its own handler, an undeclared method on a
+    -- declared path is refused (405), an undeclared path is not found (404)
+    let lineOf (method path : String) : Option Nat :=
+      (routesI.zipIdx.find? fun (r, _) => match r.splitOn " " with | [_, _, dm, dp] => dm == method && dp == path | _ => false).map (·.2)
+    let implTable : Option (List Oas3.Router.Route) := Id.run do
+      let mut t : List Oas3.Router.Route := []
+      for ax in (routesI.map fun r => (r.splitOn " ").head!).eraseDups do
+        match Oas3.ReqInterop.parsePattern ax.toList with
+        | none => return none
+        | some ps =>
+          let ms := routesI.zipIdx.filterMap fun (r, i) => match r.splitOn " " with
+            | [a, rm, _, _] => if a == ax then some (rm.toUpper.toList, i) else none
+            | _ => none
+          t := t ++ [{ pattern := ps, methods := ms }]
+      return some t
+    let specTable : Option (List Oas3.Router.Route) := Id.run do
+      let mut t : List Oas3.Router.Route := []
+      for pth in (opsJ.map fun d => strOf d "path").eraseDups do
+        match Oas3.ReqInterop.parsePattern (splitOnce '?' pth.toList).1 with
+        | none => return none
+        | some ps =>
+          let ms := opsJ.filterMap fun d => if strOf d "path" == pth then
+            (lineOf (strOf d "method").toUpper pth).map fun i => ((strOf d "method").toUpper.toList, i) else none
+          t := t ++ [{ pattern := ps, methods := ms }]
+      return some t
+    -- (the HEAD deviation concerns every GET-only path: it is NOTED and reported only when nothing else fails, so that it
+    -- never stands in front of another failure)
+    let mut headNote : Option String := none
+    match implTable, specTable with
+    | some it, some st =>
+      for r in st do
+        let own : List (List Char) := r.pattern.map fun sg => match sg with | .lit l => l | .cap pre _ => pre ++ ['v']
+        for segs in [own, own ++ ["zz".toList]] do
+          for m in Oas3.Server.oasMethods do
+            let want := Oas3.Router.dispatchStrict st m segs
+            let got := Oas3.Router.dispatch it m segs
+            if want != got then
+              let pathS := "/" ++ "/".intercalate (segs.map String.ofList)
+              let showO (o : Oas3.Router.Outcome) : String := match o with
+                | .handler i => s!"handler of `{((routesI.zipIdx.find? fun (_, k) => k == i).map (·.1)).getD "?"}`" | .notFound => "404" | .methodNotAllowed => "405"
+              let cls : List String :=
+                if r.pattern.any (fun sg => sg == .lit []) then ["KnownEmptySegmentDropped"]
+                -- F05-6: axum's MethodRouter serves HEAD from the GET handler when no HEAD handler is registered
+                else if m == Oas3.Router.mHEAD && want == .methodNotAllowed && Oas3.Router.dispatchStrict it m segs == .methodNotAllowed then ["KnownHeadServedByGet"]
+                else if hasTrace then ["KnownTraceDuplicated"] else []
+              let msg := s!"{String.ofList m} {pathS}: the document declares {showO want}, the emitted router answers {showO got}"
+              if cls == ["KnownHeadServedByGet"] then
+                if headNote.isNone then headNote := some msg
+              else return verdict false cls msg
+    | _, _ => pure ()     -- a template matchit refuses (text after a parameter): C06's F-C06-7
     -- response variants: status in the declared key's range, body encoding declared
     for d in opsJ do
       let key := s!"{(strOf d "method").toUpper} {strOf d "path"}"
@@ -219,7 +271,9 @@ def run : Handler := fun req => do
     let handlers := fns.filter (fun f => strOf f "kind" == "fn" && strOf f "name" != "router")
     if !handlers.all (fun f => ((strOf f "body").splitOn "Err(e)=>").length > 1 && ((strOf f "body").splitOn "(axum::http::StatusCode::INTERNAL_SERVER_ERROR,format!(\"Internal error: {e}\")").length > 1 && ((strOf f "body").splitOn "Ok(response)=>response.into_response()").length > 1) then
       return verdict false [] "a handler does not map Err to 500"
-    return verdict true []
+    match headNote with
+    | some msg => return verdict false ["KnownHeadServedByGet"] msg
+    | none => return verdict true []
   let branch := s!"ops{opsJ.length}" ++ (if conflict then "+conflict" else "") ++ (if dupRoute then "+dup" else "")
   pure (Json.mkObj [("model", model), ("match", matched), ("judge", judge), ("branch", branch), ("impl_proj", implP)])
 
